@@ -855,6 +855,20 @@ def model_task(task, ybin, root):
                     why = "the stream written does not decode: %r" % (e,)
                 if why:
                     viols.append(({"class": "stream_corrupt_after_failed_call", "api": "python_writer"}, doc(model, proto, task, "python_writer_failed_call", ops, counts, why)))
+            # a writer that is closed twice (an explicit close() inside a `with` block, a close() in a finally clause after one in
+            # the body): the second call finds every step completed - whatever it does, the stream that the first one completed
+            # must stay the stream of the values written
+            for h in range(2 if quick else 6):
+                hr = pr.fork("closetwice", h)
+                CALLER["in_handler"], CALLER["with_block"] = False, False
+                ops = legal_py_writer(hr, streams)
+                st1, _, _, out1 = run_py_writer_with_failed_call(model, proto, pyvals, ops)
+                st2, det2, _, out2 = run_py_writer_with_failed_call(model, proto, pyvals, ops + [["C"]])
+                stats["runs"] += 2
+                stats["py_writer_closed_twice"] = stats.get("py_writer_closed_twice", 0) + 1
+                if st1 == "closed" and st2 == "closed" and out2 != out1:
+                    viols.append(({"class": "second_close_changes_the_completed_stream", "api": "python_writer"},
+                                  doc(model, proto, task, "python_writer_closed_twice", ops + [["C"]], counts, "%d bytes after one close(), %d after two" % (len(out1), len(out2)))))
             # histories that go on after a rejected call: whatever was refused before, an out-of-order call and a close() with
             # steps missing must still raise
             for h in range(4 if quick else 12):
@@ -1048,6 +1062,11 @@ def replay_doc(d, ybin, root):
             return bool(why), why
         if api == "python_reader_cut":
             return False, "re-run by the check itself"
+        if api == "python_writer_closed_twice":
+            pyvals = P.read_python_values(model, proto, data)
+            _, _, _, out1 = run_py_writer_with_failed_call(model, proto, pyvals, ops[:-1])
+            st2, _, _, out2 = run_py_writer_with_failed_call(model, proto, pyvals, ops)
+            return (st2 == "closed" and out2 != out1), "%d bytes after one close(), %d after two" % (len(out1), len(out2))
         if api == "python_writer_failed_call":
             pyvals = P.read_python_values(model, proto, data)
             status, detail, acked, out = run_py_writer_with_failed_call(model, proto, pyvals, ops)
